@@ -4,8 +4,8 @@
 (*                                                                         *)
 (* A string is seen as a sequence of TOKENS produced by a fixed lexer      *)
 (* (harness: vh-sciparse/src/bin/addrtext.rs, fn lex):                     *)
-(*   every occurrence of  [ ] , - : ;  and every white-space character is  *)
-(*   a structural token (k = "lb","rb","cm","ds","cl","sc","ws"); every    *)
+(*   every occurrence of  [ ] , - : ; #  and every white-space character is *)
+(*   a structural token (k = "lb","rb","cm","ds","cl","sc","hs","ws"); every *)
 (*   maximal run of other characters is an ATOM (k = "a").                 *)
 (* LEAF syntax is not specified here: an atom carries FACTS decided by     *)
 (* Rust std (presence of a record field = the fact holds):                 *)
@@ -155,6 +155,29 @@ G_TxtRecord(cx, i, j) ==
   IF Has(cx.ts, i, "pfx") /\ K(cx.ts, i+1) = "sc" /\ j >= i + 1 THEN G_TxtPayload(cx, i+2, j) ELSE Rej
 
 (***************************************************************************)
+(* Hop predicate of the path policy language (policy/types.rs):            *)
+(*   predicate  = isd [ "-" as [ "#" interfaces ] ]                        *)
+(*   interfaces = if | if "," if           if = u16 decimal                *)
+(* Value: isd, as (absent when not written), hk = "ifany" | "if1" | "if2"  *)
+(* with the interface atoms in hp.                                         *)
+(***************************************************************************)
+G_Ifs(cx, i, j) ==
+  IF i = j /\ Has(cx.ts, i, "d16") THEN Acc([V0 EXCEPT !.hk = "if1", !.hp = <<i>>])
+  ELSE IF j = i + 2 /\ Has(cx.ts, i, "d16") /\ K(cx.ts, i+1) = "cm" /\ Has(cx.ts, j, "d16")
+       THEN Acc([V0 EXCEPT !.hk = "if2", !.hp = <<i, j>>])
+       ELSE Rej
+
+IfAny == [V0 EXCEPT !.hk = "ifany"]
+G_HopPred(cx, i, j) ==
+  IF ~(i <= j /\ Has(cx.ts, i, "d16")) THEN Rej
+  ELSE IF i = j THEN Acc(Comb([V0 EXCEPT !.isd = <<i>>], IfAny))
+  ELSE IF K(cx.ts, i+1) # "ds" THEN Rej
+  ELSE LET h  == FirstK(cx.ts, i+2, j, "hs")          \* an AS number contains no '#'
+           as == G_Asn(cx, i+2, IF h = 0 THEN j ELSE h-1)
+           fs == IF h = 0 THEN Acc(IfAny) ELSE G_Ifs(cx, h+1, j)
+       IN IF as.o = "acc" /\ fs.o = "acc" THEN Acc(Comb(Comb([V0 EXCEPT !.isd = <<i>>], as.v), fs.v)) ELSE Rej
+
+(***************************************************************************)
 (* I-layer: the parsers as coded.                                          *)
 (***************************************************************************)
 \* isd.rs: u16::from_str
@@ -264,11 +287,31 @@ I_TxtPayload(cx, i, j) ==
 I_TxtRecord(cx, i, j) ==
   IF Has(cx.ts, i, "pfx") /\ K(cx.ts, i+1) = "sc" /\ j >= i + 1 THEN I_TxtPayload(cx, i+2, j) ELSE Rej
 
+\* policy/types.rs InterfacesPredicate::from_str: splitn(2, ","), u16 each
+I_Ifs(cx, i, j) ==
+  LET c == FirstK(cx.ts, i, j, "cm") IN
+  IF c = 0 THEN (IF i = j /\ Has(cx.ts, i, "d16") THEN Acc([V0 EXCEPT !.hk = "if1", !.hp = <<i>>]) ELSE Rej)
+  ELSE IF c = i + 1 /\ Has(cx.ts, i, "d16") /\ j = c + 1 /\ Has(cx.ts, j, "d16")
+       THEN Acc([V0 EXCEPT !.hk = "if2", !.hp = <<i, j>>]) ELSE Rej
+
+\* policy/types.rs HopPredicate::from_str: splitn(2, "-") -> isd; splitn(2, "#") -> as; interfaces
+I_HopPred(cx, i, j) ==
+  LET d == FirstK(cx.ts, i, j, "ds") IN
+  IF d = 0 THEN (LET a == I_Isd(cx, i, j) IN IF a.o = "acc" THEN Acc(Comb(a.v, IfAny)) ELSE Rej)
+  ELSE LET a == I_Isd(cx, i, d-1) IN
+       IF a.o # "acc" THEN Rej
+       ELSE LET h  == FirstK(cx.ts, d+1, j, "hs")
+                as == I_Asn(cx, d+1, IF h = 0 THEN j ELSE h-1)
+            IN IF as.o # "acc" THEN Rej
+               ELSE IF h = 0 THEN Acc(Comb(Comb(a.v, as.v), IfAny))
+               ELSE LET fs == I_Ifs(cx, h+1, j) IN
+                    IF fs.o = "acc" THEN Acc(Comb(Comb(a.v, as.v), fs.v)) ELSE Rej
+
 (***************************************************************************)
 (* Dispatch by target type.                                                *)
 (***************************************************************************)
 Types == {"Isd", "Asn", "IsdAsn", "Svc", "Host", "AddrV4", "AddrV6", "AddrSvc", "Addr", "IpAddr",
-          "SockV4", "SockV6", "SockSvc", "Sock", "SockIp", "TxtPayload", "TxtRecord"}
+          "SockV4", "SockV6", "SockSvc", "Sock", "SockIp", "TxtPayload", "TxtRecord", "HopPred", "IfPred"}
 
 G(T, cx) ==
   LET n == Len(cx.ts) IN
@@ -289,6 +332,8 @@ G(T, cx) ==
     [] T = "SockIp"  -> G_Sock(cx, 1, n, {"v4", "v6"})
     [] T = "TxtPayload" -> G_TxtPayload(cx, 1, n)
     [] T = "TxtRecord"  -> G_TxtRecord(cx, 1, n)
+    [] T = "HopPred"    -> G_HopPred(cx, 1, n)
+    [] T = "IfPred"     -> G_Ifs(cx, 1, n)
 
 I(T, cx) ==
   LET n == Len(cx.ts) IN
@@ -309,6 +354,8 @@ I(T, cx) ==
     [] T = "SockIp"  -> I_SockIp(cx, 1, n)
     [] T = "TxtPayload" -> I_TxtPayload(cx, 1, n)
     [] T = "TxtRecord"  -> I_TxtRecord(cx, 1, n)
+    [] T = "HopPred"    -> I_HopPred(cx, 1, n)
+    [] T = "IfPred"     -> I_Ifs(cx, 1, n)
 
 (***************************************************************************)
 (* P-layer statements about one string (cx) and one parser outcome r.      *)
